@@ -12,7 +12,8 @@ package c08
 //   stage   none | before the handler runs | while the body is read (at the first read; after half the bytes and the
 //           rest never arrives; after half the bytes and the rest was already buffered; when the last byte was read) |
 //           forward auth only: WHILE the sub-request to the auth service is in flight | after the answer's header
-//           arrived, while its body is drained | after the answer was consumed
+//           arrived, while its body is drained (the rest of the body then fails / still arrives) | after the answer was
+//           consumed
 //   cause   the context is cancelled (connection closed) | the context's deadline expires (virtual time)
 //   policy  forward auth only - what the (in-memory) transport of the sub-request does with a sub-request whose context is
 //           done: honour it (like net/http's transport: context error) | the auth service's answer wins the race |
@@ -79,7 +80,7 @@ var lifeStages = []lifeStage{
 	{"body:half-then-rest", false, []string{"honour", "answer"}},
 	{"body:at-eof", false, []string{"honour", "answer"}},
 	{"auth:in-flight", true, []string{"honour", "answer", "reset"}},
-	{"auth:answered>body-read", true, []string{"-"}},
+	{"auth:answered>body-read", true, []string{"honour", "answer"}},
 	{"auth:answered>body-close", true, []string{"-"}},
 }
 
@@ -308,12 +309,15 @@ type lifeRT struct {
 
 type lifeRespBody struct {
 	io.ReadCloser
-	onRead, onClose func()
+	onRead  func() error
+	onClose func()
 }
 
 func (b *lifeRespBody) Read(p []byte) (int, error) {
 	if b.onRead != nil {
-		b.onRead()
+		if err := b.onRead(); err != nil {
+			return 0, err
+		}
 	}
 	return b.ReadCloser.Read(p)
 }
@@ -364,7 +368,14 @@ func (f *lifeRT) RoundTrip(req *http.Request) (*http.Response, error) {
 	}
 	switch f.stage {
 	case "auth:answered>body-read":
-		resp.Body = &lifeRespBody{ReadCloser: resp.Body, onRead: f.g.fire}
+		// honour: like net/http's transport, reading the answer's body fails once the sub-request's context is done
+		resp.Body = &lifeRespBody{ReadCloser: resp.Body, onRead: func() error {
+			f.g.fire()
+			if f.policy == "honour" {
+				return req.Context().Err()
+			}
+			return nil
+		}}
 	case "auth:answered>body-close":
 		resp.Body = &lifeRespBody{ReadCloser: resp.Body, onClose: f.g.fire}
 	}
@@ -631,8 +642,8 @@ type lifeJob struct {
 	policy string
 }
 
-func lifeBehaviours(driver string) []fwdBehaviour {
-	if driver == "handler" {
+func lifeBehaviours(driver string, thorough bool) []fwdBehaviour {
+	if driver == "handler" || thorough {
 		return forwardBehaviours()
 	}
 	var out []fwdBehaviour
@@ -682,12 +693,12 @@ func lifeJobs() []lifeJob {
 	return jobs
 }
 
-func (j lifeJob) cases() []lifeCase {
+func (j lifeJob) cases(thorough bool) []lifeCase {
 	base := lifeCase{Driver: j.driver, Kind: lifeKindOf(j.route), Route: j.route, Stage: j.stage.name, Cause: j.cause, Policy: j.policy, Cred: "-"}
 	var out []lifeCase
 	switch base.Kind {
 	case "forward":
-		for _, b := range lifeBehaviours(j.driver) {
+		for _, b := range lifeBehaviours(j.driver, thorough) {
 			k := base
 			k.B = b
 			out = append(out, k)
@@ -742,7 +753,7 @@ func runLifecycle(t *testing.T, r *runner.Run) {
 				tl := newTally()
 				bubble(t, r, slot, lifeDSL(slot), j.route, epoch.Add(time.Hour), func(s *session) {
 					w := newLifeWorld(r, s, tl, slot)
-					for _, k := range j.cases() {
+					for _, k := range j.cases(r.Thorough()) {
 						w.run(k)
 					}
 				})
